@@ -75,6 +75,8 @@ pub struct Shared {
     pub eof_reads: usize,
     // scripted queueing transport (the websocket write path): bytes accepted by poll_write while the socket is blocked
     pub pend_again: bool,
+    pub wfailed: bool,
+    pub resumed: bool,
     pub wsq: bool,
     pub blocked: bool,
     pub queue: Vec<u8>,
@@ -121,6 +123,8 @@ impl Shared {
             in_user_write: false,
             eof_reads: 0,
             pend_again: false,
+            wfailed: false,
+            resumed: false,
             wsq: false,
             blocked: false,
             queue: Vec::new(),
@@ -369,6 +373,32 @@ impl Shared {
                 self.i += 1;
                 let kinds = [io::ErrorKind::BrokenPipe, io::ErrorKind::ConnectionReset, io::ErrorKind::TimedOut];
                 Err(io::Error::new(kinds[self.i % kinds.len()], "scripted transient error"))
+            },
+            "wfail" => {
+                // the transport fails this write of a user frame (LfsConn.WriteFail): time limit, not ready, reset
+                self.i += 1;
+                self.wfailed = true;
+                let kinds: &[io::ErrorKind] = if is_async {
+                    &[io::ErrorKind::TimedOut, io::ErrorKind::BrokenPipe, io::ErrorKind::ConnectionReset]
+                } else {
+                    &[io::ErrorKind::WouldBlock, io::ErrorKind::TimedOut, io::ErrorKind::BrokenPipe]
+                };
+                Err(io::Error::new(kinds[(self.i + self.counter) % kinds.len()], "scripted write failure"))
+            },
+            // an implementation that, instead of reporting the failure, carries on with the REST of the frame keeps the frame
+            // contiguous: tolerated (the model's write() reports the error); starting the frame again is not
+            "werr"
+                if self.wfailed
+                    && match (&self.cur_out, &self.user_frame) {
+                        (Some((exp, pos)), _) => buf[..] == exp[*pos..],
+                        (None, Some(frame)) => buf[..] == frame[..],
+                        _ => false,
+                    } =>
+            {
+                self.out.extend_from_slice(buf);
+                self.cur_out = None;
+                self.resumed = true;
+                Ok(buf.len())
             },
             "cancel" if is_async => Err(io::Error::new(io::ErrorKind::WouldBlock, "pending")),
             other => {
@@ -899,8 +929,15 @@ pub fn replay_blocking(pool: Arc<Pool>, verify: bool, steps: Vec<Step>, seed: u6
                 if let Some(m) = &s.mismatch {
                     return ReplayVerdict::Mismatch(m.clone());
                 }
+                if s.resumed {
+                    return ReplayVerdict::Ok; // carried on with the rest of the frame after a failed transport write: contiguous
+                }
                 match r {
                     Ok(Ok(())) => {},
+                    Ok(Err(_)) if s.wfailed && s.next_io_step().map(|w| w.a == "werr").unwrap_or(false) => {
+                        // the failure was reported; the model's connection is finished
+                        return ReplayVerdict::Ok;
+                    },
                     other => return ReplayVerdict::Mismatch(format!("write() returned {:?}", other.map_err(|_| "panic"))),
                 }
                 match s.next_io_step() {
@@ -1071,7 +1108,13 @@ pub fn replay_tokio_on(pool: Arc<Pool>, verify: bool, steps: Vec<Step>, seed: u6
                     if let Some(m) = &s.mismatch {
                         return ReplayVerdict::Mismatch(m.clone());
                     }
+                    if s.resumed {
+                        return ReplayVerdict::Ok;
+                    }
                     if let Err(e) = r {
+                        if e != "panic" && s.wfailed && s.next_io_step().map(|w| w.a == "werr").unwrap_or(false) {
+                            return ReplayVerdict::Ok;
+                        }
                         return ReplayVerdict::Mismatch(format!("write() returned {e}"));
                     }
                     match s.next_io_step() {
